@@ -2,7 +2,7 @@
 
 use crate::driver::Cfg;
 use crate::engine::Plan;
-use crate::histx::{add_quiet, enum_commit_histories, sort_by_bound};
+use crate::histx::{add_io_reverse, add_quiet, enum_commit_histories, sort_by_bound};
 use serde_json::{json, Value};
 
 fn w(k: u64, s: u64) -> Value {
@@ -187,6 +187,7 @@ pub fn plan_c09(thorough: bool) -> Plan {
         }
     }
     add_quiet(&mut cases, if thorough { 1 } else { 5 });
+    add_io_reverse(&mut cases, if thorough { 5 } else { 15 });
     cases.extend(writeless_overlay_family());
     sort_by_bound(&mut cases);
     let mut p = Plan::new(
@@ -206,6 +207,7 @@ pub fn reopen_menu() -> Vec<Value> {
         json!({"page_cache": 1, "leaf_cache": 1, "upper_levels": 0}),
         json!({"prepopulate": true, "upper_levels": 3}),
         json!({"io_workers": 3}),
+        json!({"io_workers": 2, "io_reverse": true}),
         json!({"buckets": 1000, "seed": 99}),
         // same configuration, but nothing is read back after the reopen: the next operation
         // finds every cache empty
@@ -295,7 +297,7 @@ pub fn plan_c10(thorough: bool) -> Plan {
     sort_by_bound(&mut cases);
     let mut p = Plan::new(
         cases,
-        "histx: structural histories (empty / leaf / 20- and 21-key merkle clusters / overflow values / delete-to-one / delete-to-zero, rollback on) with a close + reopen inserted at EVERY position under every entry of a configuration menu {same, 3 workers + warm-up, minimum caches + no pinned levels, prepopulate + 3 pinned levels, 3 I/O workers, different hashtable_buckets and seed passed at reopen, same options but cold (nothing read back after the reopen)}, followed by a commit and a rollback, and all ordered pairs of menu entries in reopen-commit-reopen-commit-rollback; and a two-page free list (1280 pages released by deleting a 5 MiB value) carried across reopens under every menu entry, with commits allocating from it in between and the decoded page accounting checked after every step; oracle: after every open root, every value (direct and through a session), a verifying truthful proof for every universe key, sync_seqn equal the model's, hash-table occupancy and capacity equal those before the close, and all later operations audit as if never closed.",
+        "histx: structural histories (empty / leaf / 20- and 21-key merkle clusters / overflow values / delete-to-one / delete-to-zero, rollback on) with a close + reopen inserted at EVERY position under every entry of a configuration menu {same, 3 workers + warm-up, minimum caches + no pinned levels, prepopulate + 3 pinned levels, 3 I/O workers, 2 I/O workers on the adversarial device (completions of a burst delivered newest first), different hashtable_buckets and seed passed at reopen, same options but cold (nothing read back after the reopen)}, followed by a commit and a rollback, and all ordered pairs of menu entries in reopen-commit-reopen-commit-rollback; and a two-page free list (1280 pages released by deleting a 5 MiB value) carried across reopens under every menu entry, with commits allocating from it in between and the decoded page accounting checked after every step; oracle: after every open root, every value (direct and through a session), a verifying truthful proof for every universe key, sync_seqn equal the model's, hash-table occupancy and capacity equal those before the close, and all later operations audit as if never closed.",
     );
     p.budget_s = if thorough { 1700 } else { 55 };
     p
@@ -927,6 +929,7 @@ pub fn plan_c05(thorough: bool) -> Plan {
     cases.extend(tombstone_family("proofs", thorough));
     cases.extend(disjoint_pages_chain_family("proofs"));
     add_quiet(&mut cases, if thorough { 1 } else { 2 });
+    add_io_reverse(&mut cases, if thorough { 2 } else { 3 });
     sort_by_bound(&mut cases);
     let mut p = Plan::new(
         cases,
@@ -1037,6 +1040,7 @@ pub fn plan_c13(thorough: bool) -> Plan {
         menu.push(json!({"cc": cc}));
     }
     menu.push(json!({"warm_up": true}));
+    menu.push(json!({"io_reverse": true}));
     menu.push(json!({"page_cache": 0}));
     menu.push(json!({"page_cache": 1}));
     menu.push(json!({"leaf_cache": 0}));
@@ -1120,7 +1124,7 @@ pub fn plan_c13(thorough: bool) -> Plan {
     sort_by_bound(&mut cases);
     let mut p = Plan::new(
         cases,
-        "histx: deviation-bounded enumeration of the option space around the default configuration: every configuration with ≤1 (thorough ≤2) option moved to another menu value {commit_concurrency 2,3,5,6,7,16,64,65; warm_up; page cache 0/1 MiB; leaf cache 0/1 MiB; io_workers 2,3; hashtable_buckets 1000 (not a power of two), 65536; another bitbox seed; page_cache_upper_levels 0,1,3 with and without prepopulation; rollback on} × a fixed set of 7 multi-commit histories that span several workers' key ranges (one of them a two-leaf trie whose terminals straddle the range boundaries of 3, 5, 6 and 7 workers), plus the tombstone family (16/32-bucket tables × searched bitbox seeds, pages removed and re-inserted, cold reopen), witnessed batches of 650–1300 warmed-up keys with 1 and 2 workers, the shared root page, the elision threshold from both sides (19- and 21-key clusters), overflow values, leaf and branch splits/merges, each with a mid-history reopen; every commit is witnessed; oracle: roots, values, proofs for every universe key, witness verification and update replay all equal the reference model (hence equal across configurations). Thread interleavings of the internal workers: every schedule with ≤2 (thorough: all) preemptions of the three merkle update workers of one witnessed commit (worker start, publish child-page roots, hand back the write pass, root-page phase) under the controlled scheduler, two batches (updates / deletes incl. a root-page leaf). Also ALL schedules (a few hundred per batch) of the three beatree leaf-stage workers of one commit whose ranges are three consecutive leaves that all fall below the merge threshold (three batches: two of three values deleted / values shrunk and last leaf deleted / middle leaf deleted), i.e. of the extend-range protocol between neighbouring workers (poll left neighbour, send request, wait for response, wait for left neighbour to conclude, join in completion order): after every schedule the values, root and proofs equal the model and the directory decodes (independent decoder) to exactly the model with every page accounted for. And the branch stage: seed with two bottom branch nodes, one commit deleting 420–440 consecutive keys (≈ 140 leaves) so that the first node falls below the merge threshold and its worker requests nodes from its right neighbour, with three leaf-stage workers running under the scheduler as well (2 batches; every schedule with 0 preemptions quick, ≤1 and a capped ≤2 thorough).",
+        "histx: deviation-bounded enumeration of the option space around the default configuration: every configuration with ≤1 (thorough ≤2) option moved to another menu value {commit_concurrency 2,3,5,6,7,16,64,65; warm_up; adversarial device (the I/O workers deliver the completions of a burst newest first); page cache 0/1 MiB; leaf cache 0/1 MiB; io_workers 2,3; hashtable_buckets 1000 (not a power of two), 65536; another bitbox seed; page_cache_upper_levels 0,1,3 with and without prepopulation; rollback on} × a fixed set of 7 multi-commit histories that span several workers' key ranges (one of them a two-leaf trie whose terminals straddle the range boundaries of 3, 5, 6 and 7 workers), plus the tombstone family (16/32-bucket tables × searched bitbox seeds, pages removed and re-inserted, cold reopen), witnessed batches of 650–1300 warmed-up keys with 1 and 2 workers, the shared root page, the elision threshold from both sides (19- and 21-key clusters), overflow values, leaf and branch splits/merges, each with a mid-history reopen; every commit is witnessed; oracle: roots, values, proofs for every universe key, witness verification and update replay all equal the reference model (hence equal across configurations). Thread interleavings of the internal workers: every schedule with ≤2 (thorough: all) preemptions of the three merkle update workers of one witnessed commit (worker start, publish child-page roots, hand back the write pass, root-page phase) under the controlled scheduler, two batches (updates / deletes incl. a root-page leaf). Also ALL schedules (a few hundred per batch) of the three beatree leaf-stage workers of one commit whose ranges are three consecutive leaves that all fall below the merge threshold (three batches: two of three values deleted / values shrunk and last leaf deleted / middle leaf deleted), i.e. of the extend-range protocol between neighbouring workers (poll left neighbour, send request, wait for response, wait for left neighbour to conclude, join in completion order): after every schedule the values, root and proofs equal the model and the directory decodes (independent decoder) to exactly the model with every page accounted for. And the branch stage: seed with two bottom branch nodes, one commit deleting 420–440 consecutive keys (≈ 140 leaves) so that the first node falls below the merge threshold and its worker requests nodes from its right neighbour, with three leaf-stage workers running under the scheduler as well (2 batches; every schedule with 0 preemptions quick, ≤1 and a capped ≤2 thorough).",
     );
     p.budget_s = if thorough { 1700 } else { 55 };
     p.assumptions = vec!["thread interleavings of the internal workers are those the OS scheduler produced in these runs plus the controlled schedules of the schedx engine (see C15 evidence); sequentially-consistent interleavings only".into()];
